@@ -27,6 +27,7 @@ DP = "download_policy"
 
 EXPLANATION += ' (R9, round 9) = C12.R3: the download flag of a remote insert is computed from the policy the store holds now, on both ingress paths. R8 also carries the destructor rows of C06.R4.'
 EXPLANATION += " (R10, round 11) = C16.R1 for the policy table: a removed document's policy row is erased."
+EXPLANATION += ' (R11, round 12) = C16.R15: no per-document memo (e.g. of decoded policies) in the store outlives the document.'
 
 
 def _str_consts_on_path(body, path):
@@ -164,6 +165,42 @@ def r2(ctx):
     dec = [t2 for _, t2 in g.calls() if t2["f"].get("name") == "from_bytes" and callee_matches(t2, r"postcard")]
     dfl = [t2 for _, t2 in g.calls() if t2["f"].get("name") == "default"]
     ctx.check(len(dec) == 1 and len(dfl) == 1, "C15.R2", g.path, "decode-or-default", "Some(bytes) => postcard::from_bytes, None => DownloadPolicy::default()", g.sp)
+    # the reader evaluated (round 12): what it answers is decided by the table row of this namespace read during this very call
+    for row in ("absent", "present", "undecodable", "read-fails"):
+        rlog = []
+
+        def goracle(kind, name, payload, site, row=row):
+            if kind != "call":
+                return None
+            t, args, it = payload
+            names = [it.tokname(a) for a in args]
+            if name == "tables" and callee_matches(t, r"store::fs::Store::tables$"):
+                return E.Ok(E.Tok("tables"))
+            ct = tables.call_table(t, types)
+            if ct and ct[1] == "get":
+                rlog.append(("%s.get" % ct[0], names[1:]))
+                return {"absent": E.Ok(E.NONE), "read-fails": E.Err(E.Tok("storage-error"))}.get(row, E.Ok(E.Some(E.Tok("rowguard"))))
+            if ct and ct[1] in tables.WRITE_OPS:
+                rlog.append(("%s.%s" % (ct[0], ct[1]), names[1:]))
+                return E.Ok(E.NONE)
+            if name == "value" and names and names[0].strip("&*") == "rowguard":
+                return E.Tok("row-bytes")
+            if name == "from_bytes" and callee_matches(t, r"postcard"):
+                return E.Err(E.Tok("decode-error")) if row == "undecodable" else E.Ok(E.Tok("decoded(%s)" % names[0].strip("&*")))
+            if name == "default" and not args:
+                return E.Tok("default-policy")
+            if name in ("as_bytes", "to_bytes"):
+                return E.Tok("b(%s)" % names[0].strip("&*"))
+            return None
+        gsig = [l["ty"] for l in g.locals[1:3]]
+        try:
+            ret, itp = E.run_it(f, g.path, [E.href("self"), E.href("namespace") if gsig[1].startswith("&") else E.Tok("namespace")], {"self": E.Tok("store"), "namespace": E.Tok("namespace")}, goracle)
+            got = E.describe(itp.resolve(ret), f)
+        except E.Unsupported as e:
+            got = "UNSUPPORTED-FORM: %s" % e
+        want = {"absent": ("Ok(default-policy)",), "present": ("Ok(decoded(row-bytes))",), "undecodable": ("Err",), "read-fails": ("Err",)}[row]
+        ok = (got in want or (want == ("Err",) and got.startswith("Err"))) and rlog == [(DP + ".get", ["b(namespace)"])]
+        ctx.check(ok, "C15.R2", g.path, "get[row-%s]" % row, "returns %s; table accesses %s; spec: %s after reading the policy row of this namespace in this call, nothing written" % (got, rlog, want[0]), g.sp)
     d = f.body("<store::DownloadPolicy as std::default::Default>::default")
     ctx.touch(d)
     agg = [s2 for _, _, s2 in d.statements() if s2["k"] == "assign" and s2["r"][0] == "agg" and s2["r"][1][0] == "adt" and s2["r"][1][1] == "store::DownloadPolicy"]
@@ -181,7 +218,7 @@ def r2(ctx):
         ctx.check(f.only_reached_from(b2.path, roots), "C15.R2", b2.path, "writer-of-download_policy.%s" % op, "download_policy is written only by set_download_policy and remove_replica (or helpers only they call)", t2["sp"])
     if nw < 2:
         raise mir.AnchorMissing("expected >=2 writes of the download_policy table, found %d" % nw)
-    ctx.floor("C15.R2", 9)
+    ctx.floor("C15.R2", 13)
 
 
 def r3(ctx):
@@ -310,6 +347,13 @@ def r10(ctx):
     C16.r1(ctx, rule="C15.R10", only={"download_policy"})
     ctx.floor("C15.R10", 1)
 
+def r11(ctx):
+    """"can only be set for an existing document": a removed and re-created document starts from the default - no per-document memo of
+    policies in the store outlives the document (C16.R15)"""
+    from . import C16
+    C16.mem_state(ctx, "C15.R11")
+    ctx.floor("C15.R11", 2)
+
 def run(ctx):
     ctx.run_rule("C15.R1", r1)
     ctx.run_rule("C15.R2", r2)
@@ -321,3 +365,4 @@ def run(ctx):
     ctx.run_rule("C15.R8", r8)
     ctx.run_rule("C15.R9", r9)
     ctx.run_rule("C15.R10", r10)
+    ctx.run_rule("C15.R11", r11)
